@@ -175,7 +175,20 @@ func (c *RepoCache) lock(events chan BuildEvent) error {
 	}
 	verifhook.Point("cache.lock.window")
 
-	f, err := c.repo.LocalStorage().Create(lockfile)
+	// Create the lock file exclusively: if another process went through repoIsAvailable at the
+	// same time and created it first, it holds the repository and we don't.
+	f, err := c.repo.LocalStorage().OpenFile(lockfile, os.O_WRONLY|os.O_CREATE|os.O_EXCL, 0666)
+	if os.IsExist(err) {
+		holder := "another process"
+		if lf, err := c.repo.LocalStorage().Open(lockfile); err == nil {
+			buf, _ := io.ReadAll(io.LimitReader(lf, 10))
+			_ = lf.Close()
+			if pid, err := strconv.Atoi(string(buf)); err == nil {
+				holder = fmt.Sprintf("the process pid %d", pid)
+			}
+		}
+		return fmt.Errorf("the repository you want to access has just been locked by %s", holder)
+	}
 	if err != nil {
 		return err
 	}
